@@ -221,6 +221,17 @@ func runC15(p *core.Prog, r *core.Result) {
 			perFn[fname(fn)]++
 			t := panicArgType(pn)
 			construct := fmt.Sprintf("%s#panic-%d", fname(fn), perFn[fname(fn)])
+			recovers := false
+			for _, c := range core.Calls(fn) {
+				if b, ok := c.Common().Value.(*ssa.Builtin); ok && b.Name() == "recover" {
+					recovers = true
+				}
+			}
+			if recovers {
+				// a panic raised by the recover handler itself is past the only recover scope: it always escapes
+				r.Bad("R15.1", construct, p.InstrPos(pn), "the recover handler panics (again): whatever reaches this statement - e.g. the runtime errors that host unpicklers raise on wrongly shaped NEWOBJ arguments of a corrupted record - escapes Decode and crashes the build instead of becoming an error")
+				return
+			}
 			r.Check(implementsError(t), "R15.1", construct, p.InstrPos(pn), "panics with a value of type "+shortType(t)+" (an error)", "panics with a value of type "+shortType(t)+" which is not an error: the recover handler's assertion fails, the panic is swallowed and Decode returns (nil, nil)")
 		})
 	}
